@@ -53,6 +53,15 @@ def scrub (deleted : List String) (v : String) : String :=
     Proto.fmtList kept
   else if deleted.contains v then "~" else v
 
+/-- the descriptors of an array (`dims`): a data-frame dimension names its frame, `F:<frame id>:<column>`; the frame is a mandatory
+    link of the dimension — once the frame has been deleted the getter reports an error (or none) instead of the frame, the rest of
+    the descriptor list is as it was -/
+def normDims (deleted : List String) (v : String) : String :=
+  Proto.fmtList (((Proto.parseList v).getD []).map fun e =>
+    match e.splitOn ":" with
+    | ["F", b, c] => if deleted.contains b || b.startsWith "!" || b == "~" then s!"F:?:{c}" else e
+    | _ => e)
+
 /-- C04 on the dumps around one successful delete -/
 def relDelete (before after : Dump) : List (String × Bool) :=
   let afterIds := after.map (·.id)
@@ -69,7 +78,9 @@ def relDelete (before after : Dump) : List (String × Bool) :=
   let unchanged := (survivors.zip after).all fun (b, a) =>
     b.id == a.id && b.kind == a.kind && b.name == a.name && b.type == a.type && b.created == a.created &&
     b.fields.length == a.fields.length &&
-    (b.fields.zip a.fields).all fun (fb, fa) => fb.1 == fa.1 && (scrub deleted fb.2 == fa.2 || (scrub deleted fb.2 != fb.2 && fa.2.startsWith "!"))
+    (b.fields.zip a.fields).all fun (fb, fa) => fb.1 == fa.1 &&
+      (if fb.1 == "dims" then normDims deleted fb.2 == normDims deleted fa.2 && (fb.2 == fa.2 || normDims deleted fb.2 != normDims [] fb.2)
+       else (scrub deleted fb.2 == fa.2 || (scrub deleted fb.2 != fb.2 && fa.2.startsWith "!")))
   [("deleted_entity_and_subtree_are_gone", subtreeOk), ("no_dangling_reference", noDangling),
    ("survivors_keep_their_order", sameOrder), ("everything_else_unchanged", unchanged)]
 
